@@ -953,6 +953,14 @@ func (vc *VC) evalLoc(c *evalCtx, e *Expr, ct *Contract) []loc {
 					return []loc{{key: mapKey(mt) + "#dom", idx: []*Term{m}, sort: SBool}, {key: mapKey(mt) + "#val", idx: []*Term{m}}}
 				}
 			}
+		case "cell":
+			// cell(x): the heap cell of a captured variable x of a closure under contract
+			if len(e.Args) == 1 && e.Args[0].Kind == "ident" {
+				if ev, ok := c.names[e.Args[0].Name]; ok && ev.cell != nil {
+					addKeys(memMapKey(ev.T), ev.T, []*Term{ev.cell})
+					return out
+				}
+			}
 		case "deref":
 			a := c.eval(e.Args[0])
 			if a.T != nil {
